@@ -8,12 +8,14 @@ pub struct Out {
     pub n: u64,
     pub dist: BTreeMap<String, u64>,
     pub oracle_failures: Vec<Value>,
+    /// evaluations judged by an oracle only (no model case line): scans, hops, fuzz inputs
+    pub oracle_only: u64,
 }
 
 impl Out {
     pub fn create(path: &str) -> Out {
         let f = std::fs::File::create(path).expect("create out");
-        Out { w: std::io::BufWriter::new(f), n: 0, dist: BTreeMap::new(), oracle_failures: vec![] }
+        Out { w: std::io::BufWriter::new(f), n: 0, dist: BTreeMap::new(), oracle_failures: vec![], oracle_only: 0 }
     }
     pub fn count(&mut self, key: &str) {
         *self.dist.entry(key.to_string()).or_insert(0) += 1;
@@ -35,6 +37,6 @@ impl Out {
     }
     pub fn finish(mut self) -> Value {
         self.w.flush().unwrap();
-        json!({"cases": self.n, "dist": self.dist, "oracle_failures": self.oracle_failures})
+        json!({"cases": self.n, "dist": self.dist, "oracle_failures": self.oracle_failures, "oracle_only": self.oracle_only})
     }
 }
